@@ -128,7 +128,7 @@ def run_case(case):
 
         kw = {n: mk(n) for n in CBS}
         kw["on_close"] = mk("on_close")
-        app = websocket.WebSocketApp("ws://c14.test/run", **kw)
+        app = websocket.WebSocketApp(("wss" if case.get("secure") else "ws") + "://c14.test/run", **kw)
         for ri, r in enumerate(runs):
             state["run"] = ri
             sc.i = base[ri]  # each run starts with its own attempt list, whatever the previous run consumed
@@ -237,8 +237,8 @@ def _cls(obs, case, sched):
     runs = case["runs"]
     kinds = [r["ending"]["kind"] + (":" + r["ending"]["in"] if "in" in r["ending"] else "") for r in runs]
     obs.cls = tuple(f"end:{k}" for k in kinds) + (f"runs:{len(runs)}", f"ping:{int(bool(case.get('ping')))}", f"preempted:{min(len(sched.preempted_in), 2)}",
-                                                f"traffic:{min(sum(len(r.get('traffic', [])) for r in runs), 4)}", f"reconnected:{int(any(r.get('lost_first') for r in runs))}")
-    obs.nt = repr((runs, case.get("ping"), case.get("choices"), sorted((case.get("preempt") or {}).items())))
+                                                f"traffic:{min(sum(len(r.get('traffic', [])) for r in runs), 4)}", f"reconnected:{int(any(r.get('lost_first') for r in runs))}", f"tls:{int(bool(case.get('secure')))}")
+    obs.nt = repr((runs, case.get("ping"), case.get("choices"), sorted((case.get("preempt") or {}).items()), case.get("secure")))
     return obs
 
 
@@ -298,7 +298,7 @@ def cases(draw):
     for r in runs:
         if r["ending"]["kind"] in ("server-close", "server-close-empty", "own-close", "thread-close") and draw(st.integers(0, 3)) == 0:
             r["lost_first"] = draw(st.sampled_from([0.5, 1.0, 6.0]))
-    c = {"runs": runs}
+    c = {"runs": runs, "secure": draw(st.integers(0, 3)) == 0}
     if draw(st.integers(0, 2)) == 0:
         T = draw(st.sampled_from([1, 2, 3]))
         c["ping"] = [draw(st.sampled_from([2.5 * T, 4 * T, 10 * T])), T]
